@@ -1198,7 +1198,26 @@ def _schedule(w, rnd, cfg, kw):
         quiet = kw.get('quiet_ticks', 40)
         w.net.cut.clear(); w.held.clear(); w.note('QUIET PHASE')
         t_quiet = T[0]
-        _run_until(w, rnd, ks, T[0] + quiet * PERIOD, boot_at, [], [], [], [], budget + 6000)
+        t_end = T[0] + quiet * PERIOD
+        _run_until(w, rnd, ks, T[0] + 12 * PERIOD, boot_at, [], [], [], [], budget + 6000)
+        # C07 on the closed loop ("live ones never declared lost"): who sees whom RUNNING once the detections owed to the faults of
+        # the schedule have had 12 ticks to happen ...
+        seen_running = {(a.identifier, b): a for a in w.live() if a.started for b, st in a.context.instances.items() if st.state.name == 'RUNNING'}
+        boots = {s.identifier: id(s) for s in w.live()}
+        _run_until(w, rnd, ks, t_end, boot_at, [], [], [], [], budget + 6000)
+        if T[0] < t_end - PERIOD:
+            # the operation budget ran out (a program that exits at once and is restarted at once, for ever): the schedule was cut short,
+            # nothing can be said about a quiet phase that did not take place
+            w.stats['quiet_phase_truncated'] = 1
+            return
+        # ... must still see it RUNNING at the end, as long as both are the same incarnations, alive and ticking
+        now_live = {s.identifier: s for s in w.live() if s.started and getattr(s, 'last_tick', 0) >= T[0] - 2 * PERIOD}
+        for (a, b), sa in sorted(seen_running.items()):
+            if a in now_live and b in now_live and now_live[a] is sa and boots.get(b) == id(now_live[b]):
+                st = sa.context.instances[b].state.name
+                if st != 'RUNNING' and sa.fsm.state.name not in ('RESTARTING', 'SHUTTING_DOWN', 'FINAL') and now_live[b].fsm.state.name not in ('RESTARTING', 'SHUTTING_DOWN', 'FINAL'):
+                    w.finding(f'C07:free:live-declared-lost:{st}', f'{a} saw {b} RUNNING 12 ticks into the quiet phase and holds it {st} at the end, although {b} is alive, '
+                              f'ticking (no fault, no cut in the quiet phase)')
         margin = (quiet - 12) * PERIOD
         _judge_parked(w, margin)
         # C13 on the closed loop: no XML-RPC ever left an instance for a peer it holds ISOLATED (recorded by the transport, whole schedule)
